@@ -15,6 +15,9 @@ UNIVERSES = {
     'U4d': ((1, 2, 1, 2), 2, ('b', 'a', 'c', 'a'), False, False),
     'U4l': ((2, 1, 3, 1), 0, ('b', 'a', 'b', 'a'), True, False),
     'U3c': ((1, 2, 1), 1, ('b', 'a', 'c'), False, True),
+    'U3x': ((1, 2, 3, 4), 2, ('b', 'a', 'b', 'e'), False, False),
+    'U3xd': ((1, 2, 3, 1), 2, ('b', 'a', 'b', 'e'), False, False),
+    'U2x': ((1, 2, 4), 2, ('b', 'a', 'e'), False, False),
 }
 
 ATTACH_FAMILIES = {'parent', 'list=', 'list+=', '//', '//1', 'append', 'list.parent=', 'W.tasks.parent=', 'Task()'}
@@ -27,7 +30,8 @@ _CFG = None
 
 def make_universe(name):
     ids, m, names, links_only, ctor = UNIVERSES[name]
-    return core.Universe(name, ids, m, names, links_only=links_only, ctor=ctor)
+    return core.Universe(name, ids, m, names, links_only=links_only, ctor=ctor,
+                         alphabet='reach' if name in ('U3x', 'U3xd', 'U2x') else 'full')
 
 
 def _dup_ids_abs(U, a):
@@ -223,6 +227,11 @@ def _expand_chunk(chunk):
                     acc.count('pruned_duplicate_link_states')
                     new[post_enc] = None
                     continue
+                ml = cfg.get('max_links')
+                if ml is not None and sum(len(t[2]) for t in obs_cache[post_enc][0]) > ml:
+                    acc.count('pruned_link_bound')
+                    new[post_enc] = None
+                    continue
                 new[post_enc] = hist + (op,)
     finally:
         sys.setrecursionlimit(old_limit)
@@ -230,12 +239,12 @@ def _expand_chunk(chunk):
     return acc
 
 
-def explore(uname, acc, max_depth=None, state_cap=250000, time_cap=None, collect=False):
+def explore(uname, acc, max_depth=None, state_cap=250000, time_cap=None, collect=False, max_links=None):
     """BFS closure of universe `uname`. Returns dict with states/transitions/closed/depth and, if collect, the states."""
     global _U, _OPS, _SEEN, _CFG
     U = make_universe(uname)
     ops = O.alphabet(U)
-    _U, _OPS, _CFG = U, ops, {'reclimit': 400}
+    _U, _OPS, _CFG = U, ops, {'reclimit': 400, 'max_links': max_links}
     seen = {U.init_enc: ()}
     dead = set()
     frontier = [(U.init_enc, ())]
